@@ -137,6 +137,30 @@ theorem lazy_lock_witness :
 example : (exec (init 1) [0, 1, 1, 0, 0]).pcs 0 = .ref 1 ∧ (exec (init 1) [0, 1, 1, 0, 0]).pcs 1 = .crit 1 ∧
     inCrit (exec (init 1) [0, 1, 1, 0, 0]) 2 = 1 := by decide
 
+/-- a timed acquire that never times out is the blocking acquire: the schedules of `exec` are the schedules of `execT` without time-outs -/
+theorem execT_no_timeout (s : St) (sched : List Nat) : execT s (sched.map fun i => (i, false)) = exec s sched := by
+  induction sched generalizing s with
+  | nil => rfl
+  | cons i rest ih =>
+    have h : runT s i false = run s i := by
+      unfold runT
+      cases s.pcs i <;> simp
+    simp [List.map, execT, exec, h, ih]
+
+/-- REGRESSION WITNESS: the EAGER lock gives no mutual exclusion when it is taken by `acquired = lock.acquire(timeout=t)` and the code
+    goes on whatever the result: thread 0 reads the lock attribute and acquires lock 1; thread 1 reads it, its timed acquire finds the
+    lock taken and the time-out fires - both threads are inside the critical section, ONE lock exists and only thread 0 holds it
+    (compare `eager_lock_mutual_exclusion`, which is about `run`: every way the code takes the lock is part of the model) -/
+theorem timed_ignored_witness :
+    (execT (init 1) [(0, false), (0, false), (1, false), (1, true)]).pcs 0 = .crit 1 ∧
+    (execT (init 1) [(0, false), (0, false), (1, false), (1, true)]).pcs 1 = .crit 0 ∧
+    (execT (init 1) [(0, false), (0, false), (1, false), (1, true)]).held = [1] ∧
+    (execT (init 1) [(0, false), (0, false), (1, false), (1, true)]).nlocks = 1 ∧
+    inCrit (execT (init 1) [(0, false), (0, false), (1, false), (1, true)]) 2 = 2 := by decide
+
+#print axioms execT_no_timeout
+#print axioms timed_ignored_witness
+
 #print axioms eager_lock_mutual_exclusion
 #print axioms lazy_lock_witness
 end Ll
